@@ -44,6 +44,9 @@ func NewSparseConstInt32Vector(indices []int, values []int32, n int) SparseConst
   if len(indices) != len(values) {
     panic("invalid number of indices")
   }
+  // sort and filter copies, the arguments are left untouched
+  indices = append([]int{}, indices...)
+  values = append([]int32{}, values...)
   sort.Sort(sortIntConstInt32{indices, values})
   r := nilSparseConstInt32Vector(n)
   r.indices = indices[0:0]
